@@ -739,11 +739,14 @@ pub fn run(ctx: &Ctx, id: &str) -> i32 {
                 for step in [1usize, 2] {
                     for offset in [1usize, 2] {
                         for kind in [FaultKind::Silence, FaultKind::Close] {
-                            let (mut sc, idx) = skeleton(*op, &base_cfg);
+                            // the exchange is long enough (1600 intermediate packets, the same on every re-send) for the
+                            // stall to creep for more than a virtual day of 60 s time-outs
+                            let mut cfg = base_cfg.clone();
+                            cfg.read_card_timeout = 60;
+                            let (mut sc, idx) = skeleton(*op, &cfg);
                             sc.plan.ex.remove(&(idx, cmd));
-                            for _ in 0..45 {
-                                sc.plan.push(idx, cmd, ExPlan { pre: (0..40).map(|i| Pre::Intermediate { status: i as u8, timeout: 0 }).collect(), ..ExPlan::default() });
-                            }
+                            sc.plan.sticky_last_plan = true;
+                            sc.plan.push(idx, cmd, ExPlan { pre: (0..1600 * step).map(|i| Pre::Intermediate { status: (i % 250) as u8, timeout: 0 }).collect(), ..ExPlan::default() });
                             sc.plan.faults.push(FaultSpec { call: idx, at: At::CreepingIn { cmd, offset, step }, kind });
                             run_and_judge(r, id, &sc, idx, &schema, &format!("{op:?}: {kind:?} creeping forward by {step} repl(ies) per re-sent {cmd:?} exchange, starting at reply {offset}"), false);
                             r.count("creeping_fault_runs", 1);
